@@ -330,6 +330,7 @@ func runC10(p *an.Prog, r *an.Run, tier string) {
 			continue
 		}
 		var bad []string
+		covers := map[string]int{} // mutex name -> number of accesses made while holding it
 		for _, a := range accesses[k] {
 			t := structOfFieldAccess(a.fa)
 			h := li(a.fn).Before[a.in]
@@ -347,6 +348,7 @@ func runC10(p *an.Prog, r *an.Run, tier string) {
 				want := an.LockKey(baseKey + "." + an.Ident(m.Name()))
 				if wr, held := h[want]; held && (wr || !a.write) {
 					ok = true
+					covers[m.Name()]++
 				}
 			}
 			if !ok {
@@ -355,6 +357,22 @@ func runC10(p *an.Prog, r *an.Run, tier string) {
 					kind = "write"
 				}
 				bad = append(bad, kind+" in "+an.FuncName(a.fn)+" at "+p.Pos(a.in.Pos())+" holding "+an.HeldString(h))
+			}
+		}
+		// one mutex guards a field: when the owner has several, some single one of them is held at every access (two
+		// accesses under two different mutexes of the same object do not exclude each other)
+		if len(bad) == 0 && len(accesses[k]) > 0 {
+			common := false
+			var names []string
+			for nm, n := range covers {
+				names = append(names, nm)
+				if n == len(accesses[k]) {
+					common = true
+				}
+			}
+			sort.Strings(names)
+			if !common {
+				bad = append(bad, "no single mutex is held at all "+itoa3(len(accesses[k]))+" accesses (they are spread over "+strings.Join(names, ", ")+"): accesses under different mutexes run concurrently")
 			}
 		}
 		r.Check(len(bad) == 0, "guarded-fields", k, token.NoPos, "every access in scope holds the owner's mutex ("+itoa3(len(accesses[k]))+" accesses)", "field %s is written by concurrent handlers but accessed without its mutex: %s", k, strings.Join(dedup(bad), "; "))
@@ -749,6 +767,9 @@ func checkNoBlockUnderLock(p *an.Prog, r *an.Run, rule string, want func(*ssa.Fu
 // checkOneTxn: every badgerStore method performs all accesses in exactly one Update/View region.
 func checkOneTxn(p *an.Prog, r *an.Run, rule string) {
 	checkTxnWrappers(p, r)
+	// a handed-out record is a snapshot: no driver method returns a pointer, slice or map into the driver's own tables
+	// (shared with C08/C12)
+	checkResultsPrivate(p, r)
 	bs := p.Named("pool/store/badger", "badgerStore")
 	if bs == nil {
 		r.Undec(rule, "badgerStore", token.NoPos, "type not found")
